@@ -130,6 +130,11 @@ Horizon(d) ==
             \cup {AbsInt(d, n, NN(d) + 1)[1] : n \in 1..NN(d)} \cup {AbsInt(d, n, NN(d) + 1)[2] : n \in 1..NN(d)}
   IN  (CHOOSE m \in ts : \A x \in ts : x <= m) + 1
 
+\* the paragraph that contains node n (0 if none)
+RECURSIVE ParaUp(_, _, _)
+ParaUp(d, n, fuel) == IF n = 0 \/ fuel = 0 THEN 0 ELSE IF d.nodes[n].kind = "p" THEN n ELSE ParaUp(d, d.nodes[n].par, fuel - 1)
+ParaOf(d, n) == ParaUp(d, n, NN(d) + 1)
+
 \* specified-or-inherited value (animation ignored) of an inherited property, for node n flowed into region id a
 Field(x, prop) == IF prop = "color" THEN x.color ELSE IF prop = "ta" THEN x.ta ELSE x.bg
 RECURSIVE InhUp(_, _, _, _)
@@ -144,14 +149,11 @@ Inherited(d, n, prop, a, dflt) ==
   ELSE IF Field(d.init, prop) # "none" THEN Field(d.init, prop)
   ELSE dflt
 ComputedColor(d, n) == Inherited(d, n, "color", AssocRegion(d, n), DefaultColor)
-ComputedTa(d, n)    == Inherited(d, n, "ta", AssocRegion(d, n), DefaultTa)
+\* textAlign applies to the paragraph of text node n, laid out in the region the text is flowed into
+ComputedTa(d, n)    == Inherited(d, ParaOf(d, n), "ta", AssocRegion(d, n), DefaultTa)
 \* backgroundColor is not inherited
 ComputedBg(d, n) == IF d.nodes[n].bg # "none" THEN d.nodes[n].bg
                     ELSE IF d.init.bg # "none" THEN d.init.bg ELSE DefaultBg
-\* the paragraph that contains node n (0 if none)
-RECURSIVE ParaUp(_, _, _)
-ParaUp(d, n, fuel) == IF n = 0 \/ fuel = 0 THEN 0 ELSE IF d.nodes[n].kind = "p" THEN n ELSE ParaUp(d, d.nodes[n].par, fuel - 1)
-ParaOf(d, n) == ParaUp(d, n, NN(d) + 1)
 
 -----------------------------------------------------------------------------
 (* The filter *)
@@ -264,7 +266,7 @@ Post_ConfiguredValues(before, after, cfg) ==
     LET p == ParaOf(after, n) IN
     /\ cfg.color # "none" => ComputedColor(after, n) = cfg.color
     /\ (cfg.bg # "none" /\ p # 0) => ComputedBg(after, p) = cfg.bg
-    /\ p # 0 => ComputedTa(after, p) = (IF cfg.pta THEN ComputedTa(before, p) ELSE "center")
+    /\ p # 0 => ComputedTa(after, n) = (IF cfg.pta THEN ComputedTa(before, n) ELSE "center")
 
 -----------------------------------------------------------------------------
 (* Bounded family of documents (sty sequences are kept sorted: the projection sorts them).  Geometry tokens are opaque here; harness/lcd_docs.py gives them their
